@@ -27,6 +27,16 @@ package regex
 //@   ensures [the-first-len-word-bytes-are-compared-also-when-that-is-the-whole-value] implies(len(s) >= len(prefix), result == uf("foldEq", bool, s[:len(prefix)], prefix))
 //@ end
 
-// The dispatch of Match on the two wildcard flags calls through function-typed
-// locals that hold either a closure or a bytes.* function (a dynamic call the
-// generator does not resolve): NOT under contract.
+// the dispatch on the two wildcard flags (case-insensitive branch): leading
+// wildcard only -> suffix comparison, trailing only -> prefix comparison, none
+// -> whole-value comparison.  The calls go through function-typed locals that
+// hold either one of the closures above or a bytes.* function: the generator
+// splits on the function value and uses each function's contract.
+//@ func (*simpleRegex).Match
+//@   props C02
+//@   requires r != nil
+//@   ensures [leading-wildcard-compares-the-end] implies(!r.caseSensitive && r.wildcardBefore && !r.wildcardAfter && len(buf) >= len(r.word), result == uf("foldEq", bool, buf[len(buf)-len(r.word):], r.word))
+//@   ensures [leading-wildcard-rejects-shorter-values] implies(!r.caseSensitive && r.wildcardBefore && !r.wildcardAfter && len(buf) < len(r.word), !result)
+//@   ensures [trailing-wildcard-compares-the-beginning] implies(!r.caseSensitive && !r.wildcardBefore && r.wildcardAfter && len(buf) >= len(r.word), result == uf("foldEq", bool, buf[:len(r.word)], r.word))
+//@   ensures [no-wildcard-compares-the-whole-value] implies(!r.caseSensitive && !r.wildcardBefore && !r.wildcardAfter, result == uf("foldEq", bool, buf, r.word))
+//@ end
